@@ -42,6 +42,11 @@ def generate(rng, tier, rep):
     for i, k in enumerate(kinds if tier != 'search' else kinds[:3]):
         for opts in (['--repeat', '3'], ['--repeat', '2', '-j2']):
             cases.append({'layers': [layer], 'tests': [dict(k, layer=0), {'layer': 0}, dict(kinds[(i + 3) % len(kinds)], layer=None)], 'options': opts})
+    # a child report of more than 8 KiB / 64 KiB: many failing and erroring tests in one layer that runs in a subprocess
+    for nt in ({'quick': [230], 'thorough': [230, 1700], 'search': []}[tier]):
+        layer = {'name': 'La', 'bases': [], 'kind': 'instance', 'hooks': {'setUp': ['ok'], 'tearDown': ['ok']}}
+        cases.append({'layers': [layer], 'options': ['-j2'],
+                      'tests': [{'layer': 0, 'body': 'fail' if i % 3 else 'error'} for i in range(nt)] + [{'layer': None}]})
     # a layer subprocess dying while it writes its report: the lists must show an error for that layer
     for i in range({'quick': 12, 'thorough': 100, 'search': 0}[tier]):
         c = worldcase.gen_world(rng, faults=False, rich=False, opts=[rng.choice(['-j2', '-j3'])])
